@@ -441,3 +441,69 @@ def _m27():
         fmt = '${}' if len(self.name) == 1 else '$({})'
         return safe_str.literal(fmt.format(self.name))
     ms.Variable.use = use
+
+
+def _glob_variant(old, new):
+    from bfg9000 import glob as g
+    src = open(g.__file__).read()
+    assert old in src, old
+    src = src.replace(old, new)
+    ns = {'__name__': 'bfg9000.glob', '__package__': 'bfg9000'}
+    exec(compile(src, g.__file__, 'exec'), ns)
+    for name in ('_compile_glob', '_match_base', '_match_glob_run', '_match_glob_runs', 'match'):
+        setattr(g.PathGlob, name, ns['PathGlob'].__dict__[name])
+    for fn in ns['PathGlob'].__dict__.values():
+        f = getattr(fn, '__func__', fn)
+        if hasattr(f, '__globals__'):
+            pass
+    # the re-executed class bodies refer to their own Result/Type enums: rebind to the live ones
+    for name in ('match', '_match_base', '_match_glob_run', '_match_glob_runs'):
+        f = g.PathGlob.__dict__[name]
+        f = getattr(f, '__func__', f)
+        f.__globals__['PathGlob'] = g.PathGlob
+    ns['PathGlob'].Result = g.PathGlob.Result
+    ns['PathGlob'].Type = g.PathGlob.Type
+
+
+@mutant('glob_never_too_early')
+def _m28():
+    # `never` also for later runs: prunes directories whose descendants could still match
+    _glob_variant("result = self.Result.never if first else self.Result.no",
+                  "result = self.Result.never")
+
+
+@mutant('glob_wiggle_off_by_one')
+def _m29():
+    _glob_variant("for offset in range(wiggle_room + 1):", "for offset in range(wiggle_room):")
+
+
+@mutant('glob_starstar_needs_one')
+def _m30():
+    # '**' no longer matches zero components at the end
+    _glob_variant("end_bits = path_bits[len(path_bits) - len(runs[0].matchers):]",
+                  "end_bits = path_bits[max(1, len(path_bits) - len(runs[0].matchers)):]")
+
+
+@mutant('filter_exclude_not_recursive')
+def _m31():
+    # an excluded directory no longer takes its children with it
+    from bfg9000.builtins import find as bfind
+    orig = bfind.FileFilter._match_globs
+
+    def _match_globs(self, path):
+        r = orig(self, path)
+        if r == bfind.FindResult.exclude_recursive and any(i.match(path) for i in self.exclude):
+            return bfind.FindResult.exclude
+        return r
+    bfind.FileFilter._match_globs = _match_globs
+
+
+@mutant('find_cache_drops_last')
+def _m32():
+    # the cache stores all results but the last one
+    from bfg9000.builtins import find as bfind
+    orig = bfind.FindCache.add
+
+    def add(self, file_filter, found, extra):
+        orig(self, file_filter, found[:-1] if len(found) > 1 else found, extra)
+    bfind.FindCache.add = add
